@@ -34,6 +34,10 @@ CLAIMED = {
          "Proof: for every bundle description, context, canonical value, selector choice and stream continuation, parsing what the writer wrote returns exactly the value and stops at exactly the writer's bit (C14_bundle_roundtrip, C14_parse_stops_at_writer_bit), instantiated at the image header, frame header, plain TOC and all 21 define_bundle! structs (kernel-evaluated witnesses with every optional part present); C14_generated_matches_pinned ties the descriptions to the current source. Partial: the F16 pattern -> f32 value conversion is an integer model compared with the real arithmetic by execution (not proved); derived quantities (oriented sizes, group counts, TOC offsets/order, keyframe flags) are hand-modelled and compared by execution; a permuted TOC is covered only for a hand-made trivial entropy code - the entropy-coded Lehmer layer belongs to C04; hand-written parsers are modelled by hand and pinned by extracted primitive-read sequences, U32 distributions, enum domains and source hashes.",
          "Trusted: Lean kernel, axioms propext/Classical.choice/Quot.sound, tools/translate.py (exercised by the differential run), the correspondence harness and its dump projection (private fields are observable only through the values they determine). Checked-build u32 overflows in num_groups()/Toc::parse are mirrored as `panic` on both sides.",
          "DESIGN.md §4 C14"),
+ "C18": ("Lean 4 model of the ICC command interpreter decode_icc (varints, header prediction, tag-list and main commands, shuffles, order-k prediction) and of get_icc_ctx, a Lean reference encoder driven by plans, a kernel-checked round-trip theorem over every profile and every legal plan, plus a differential correspondence run of model and encoder against jxl_color::icc::decode_icc",
+         "Proof: decodeIcc (encodeIcc plan profile) = ok profile for every byte string <= 2^28 bytes and every legal command sequence (all command kinds, widths 1/2/4, orders 0/1/2, implicit/explicit stride, tag shortcuts and expansions, terminated/unterminated tag list); varint round trip; header look-back soundness; shuffle2/4 inverses for every length; Ok results always have the declared length; loop fuel never exhausted; local rejection theorems (oversize, unknown command, width 3/order 3, look-back, stride < width, bad tag code, tag out of range, tag count, short data). All are Lean theorems about the model; the model (with finding F6 repaired) is tied to crates/jxl-color/src/icc/decode.rs by running both on encoder output for the shipped/synthesised/random profiles and on malformed streams, comparing Ok bytes and the exact error kind. Partial: the entropy-coded layer of read_icc (enc_size limits, ANS/prefix symbols under the 41 contexts) is C04's - here only get_icc_ctx is tied as a pure function (full (b1,b2) table); JxlImage::original_icc() end to end is exercised once the codestream encoder exists; non-minimal varints are covered by the correspondence run only.",
+         "Trusted: Lean kernel, axioms propext/Classical.choice/Quot.sound, the correspondence harness (hook: cfg(jxl_oxide_verif) re-export of get_icc_ctx), usize/u64 = 64 bit, bytes modelled as naturals < 256. Finding F6 (early Ok in the tag loop) is repaired by a one-line fix in /repo; its witness stays in corpus/c18 and is replayed on every run.",
+         "DESIGN.md §4 C18, §8 F6"),
 }
 NOT_YET = "machinery for this property is not built yet in this snapshot (planned, see DESIGN.md §4/§10); it is claimed as soon as its theorems and correspondence check land"
 
